@@ -135,6 +135,8 @@ pub enum Step {
     InternTop { ty: u8, x: u32 },
     /// compare every key against a freshly built database holding the model's inputs
     Fresh,
+    /// (persist config) serialize the database, deserialize into a fresh one, continue there
+    Snapshot,
 }
 
 #[derive(Clone, Debug, PartialEq, Eq, Hash, Serialize, Deserialize)]
@@ -172,6 +174,8 @@ pub struct Profile {
     pub set_durs: [u32; 4],
     // step weights: get, set, synth, setcell, getacc, evict, lrucap, interntop, fresh
     pub steps: [u32; 9],
+    /// insert one Snapshot step at a tape-chosen position (C26)
+    pub snapshot: bool,
     pub sym_types: [u32; 4],
     pub ident_dom: u32,
     pub sym_dom: u32,
@@ -203,6 +207,7 @@ impl Profile {
             set_dur_pct: 0,
             set_durs: [1, 1, 1, 0],
             steps: [8, 6, 1, 1, 0, 0, 0, 1, 1],
+            snapshot: false,
             sym_types: [3, 3, 2, 1],
             ident_dom: 3,
             sym_dom: 6,
@@ -371,6 +376,15 @@ pub fn gen_history(t: &mut Tape, prog: &Program, pf: &Profile) -> Vec<Step> {
             _ => Step::Fresh,
         };
         v.push(s);
+    }
+    if pf.snapshot {
+        let at = (1 + t.pick(v.len() as u32) as usize).min(v.len());
+        v.insert(at, Step::Snapshot);
+        // most snapshots are taken in a quiescent state (every key requested since the last
+        // write), which keeps the listed read-lock finding out of the way by construction
+        if t.chance(7, 10) {
+            v.insert(at, Step::Fresh);
+        }
     }
     v
 }
